@@ -155,7 +155,7 @@ prop("C17",
 
 prop("C08",
      [r_num.rule_numlit, r_num.rule_finite_default, r_num.rule_exempt, r_num.rule_curve_raw, r_wl.rule_ord_bijection,
-      r_num.rule_read_no_rewrite, r_sec.rule_route, r_num.rule_numlit_complete, r_data.rule_read_subs],
+      r_num.rule_read_no_rewrite, r_sec.rule_route, r_num.rule_numlit_complete, r_data.rule_read_subs, r_lp.rule_pu_table_alias],
      "Guard-language analysis: every text->number constructor in SectionParser.num (int/float/np.int64/np.float64 on "
      "the argument) is reachable, from the entry or from any later re-definition of the value, only across the edge of "
      "a test on which `<regex>.fullmatch(value)` succeeded (truth table of the test over match/is-str atoms; CFG with "
@@ -350,7 +350,7 @@ prop("C12",
       r_wl.rule_measure, r_wl.rule_template, r_num.rule_curve_raw, r_hdrt.rule_steer_lookup,
       r_data.rule_wrap_consistent, r_data.rule_wrap_tokens, r_data.rule_orient, r_data.rule_reshape, r_data.rule_wrap_count,
       r_lp.rule_write_no_state, r_si.rule_pk_rebuild, r_data.rule_options_readonly, r_wl.rule_version_consistency,
-      r_data.rule_null_write, r_data.rule_data_format, r_data.rule_subs_source, r_hdrt.rule_parser_stateless, r_wl.rule_loop_closures, r_data.rule_engine_select],
+      r_data.rule_null_write, r_data.rule_data_format, r_data.rule_subs_source, r_hdrt.rule_parser_stateless, r_wl.rule_loop_closures, r_data.rule_engine_select, r_wrf.rule_frame],
      "Order-table agreement: the folded defaults.ORDER_DEFINITIONS has every version the writer admits, all four "
      "sections per version, well-formed (order, mnemonics) exceptions, 1.x ~Well = descr:value except STRT/STOP/STEP/NULL "
      "and 2.x/3.0 = value:descr throughout; reader (SectionParser.__init__) and writer (get_section_order_function) "
@@ -393,7 +393,8 @@ def _to_csv_typestate(ctx):
 prop("C14",
      [r_lp.rule_views, r_lp.rule_route, r_lp.rule_rank, r_lp.rule_no_inplace, r_lp.rule_pu_fresh, r_si.rule_suffix_after_insert,
       r_si.rule_session_only, r_si.rule_compare, r_si.rule_accessors, r_lp.rule_no_alias_repeat, r_lp.rule_sentinel,
-      r_lp.rule_rename_reset, r_si.rule_read_pure, r_si.rule_suffix_algo, r_si.rule_list_primitives, r_lp.rule_editors_pure],
+      r_lp.rule_rename_reset, r_si.rule_read_pure, r_si.rule_suffix_algo, r_si.rule_list_primitives, r_lp.rule_editors_pure,
+      r_lp.rule_no_swallow],
      "List-model clauses: every view (keys, values, items, __getitem__, data, index, curvesdict, get_curve, df, "
      "stack_curves) reads curve state through self.curves only, and no LASFile attribute other than `sections` is ever "
      "assigned from curve data (attribute-store census with provenance; LF.VIEWS); the ten curve mutators change the list "
@@ -429,7 +430,7 @@ prop("C10",
 
 prop("C18",
      [r_ex.rule_json_total, r_ex.rule_json_nan, r_ex.rule_isnan_guard, r_ex.rule_depth, r_ex.rule_csv, r_ex.rule_xlsx,
-      r_ex.rule_df, _to_csv_typestate, r_ex.rule_dictview, r_ex.rule_table_literals, r_ex.rule_fresh_document],
+      r_ex.rule_df, _to_csv_typestate, r_ex.rule_dictview, r_ex.rule_table_literals, r_ex.rule_fresh_document, r_lp.rule_views],
      "Export clauses: every CFG path through JSONEncoder.default returns a value, raises or delegates to the base class "
      "(no fall-through to null) and numpy integers are converted (EX.JSON-TOTAL); curve samples and header values are "
      "placed in the JSON document only through an unconditional comprehension whose element is the NaN->None map "
@@ -626,6 +627,25 @@ ALSO9 = {
     "C19": "Round 9: HDR.TOTAL default-fields (fields the matching pattern does not capture default to text, not None).",
     "C20": "Round 9: release callables (`release = stream.close` / a no-op, called in finally) are lowered to the flag form before IO.TYPESTATE runs.",
 }
+ALSO10 = {
+    "C08": "Round 10: PU.TABLE-ALIAS also counts for this property - num() applies the comma-decimal substitution it looks up in "
+           "defaults.READ_SUBS, so a read-reachable function that extends an entry of that table in place (through an alias) changes "
+           "which header values become numbers in every later read.",
+    "C12": "Round 10: WR.FRAME also counts for this property - the two configurations are applied to the same LASFile one after the "
+           "other, so anything write() leaves on the object or its sections (a width cache keyed by the items' text but not by the "
+           "value/description layout) carries the first configuration into the second output.",
+    "C14": "Round 10: LF.NO-SWALLOW (no editing method of LASFile / SectionItems catches the IndexError/KeyError of the collection "
+           "primitive it calls and carries on: composite edits such as replace_curve_item = delete + insert rely on the raise as "
+           "their bounds check); LF.RANK also requires that the column count which pads the curve list is taken from the array the "
+           "columns are read from, not from its un-truncated precursor.",
+    "C17": "Round 10: PK.INDEPENDENT is path-sensitive - every CFG path to a value-return of a __deepcopy__ override passes through "
+           "the statement that deep-copies the instance __dict__ (an early exit returning a constructor-fresh object resets "
+           "mnemonic_transforms); `return memo[...]` is the accepted early exit.",
+    "C18": "Round 10: LF.VIEWS also counts for this property - to_csv, df and the JSON document read LASFile.data, which must be "
+           "stacked from the curves' current arrays on every access (no cache attribute on the LASFile).",
+}
+for _pid, _txt in ALSO10.items():
+    PROPS[_pid]["explanation"] += " " + _txt
 for _pid, _txt in ALSO.items():
     PROPS[_pid]["explanation"] += " " + _txt
 for _pid, _txt in ALSO6.items():
